@@ -1837,6 +1837,9 @@ class InterInventoryTree(InterTree):
                 old_id = self.source.path2id(path)
                 precise_file_ids.add(old_id)
             precise_file_ids.discard(None)
+            # The source occupant of a path may already have been emitted:
+            # don't emit it a second time.
+            precise_file_ids.difference_update(changed_file_ids)
             current_ids = precise_file_ids
             precise_file_ids = set()
             # We have to emit all of precise_file_ids that have been altered.
